@@ -242,6 +242,7 @@ fn add_twin_bank(w: &mut World, of: usize) -> Result<usize, String> {
         decimals: src.decimals,
         oracle_kind: 0,
         oracle_key: kp("oracle_twin", i as u64),
+        oracle_extra: vec![],
         lv: bank_pda("liquidity_vault", &bank),
         lv_auth: bank_pda("liquidity_vault_auth", &bank),
         iv: bank_pda("insurance_vault", &bank),
